@@ -163,10 +163,21 @@ def main(argv):
     opts = AnalysisOptionSet(per_condition_timeout=timeout, per_path_timeout=per_path, report_all=True,
                              stats=stats, max_uninteresting_iterations=0)
     res = {'lemma': target, 'name': meta.name, 'params': L.PARAMS, 'twin': twin}
+    # never assume a callee's contract instead of executing it
+    core.ShortCircuitingContext.make_interceptor = lambda self, original: original
     try:
         checkables = analyze_function(fn, opts)
         if not checkables:
             raise RuntimeError('no conditions found on lemma')
+        if twin:
+            # reachability twin: same pre-conditions, post-condition False.  It must be REFUTED,
+            # i.e. some input satisfies the pre-conditions and runs the lemma to its end.
+            from dataclasses import replace as _replace
+            from crosshair.condition_parser import ConditionExpr, ConditionExprType
+            for c in checkables:
+                old = c.conditions.post[0]
+                c.conditions = _replace(c.conditions, post=[ConditionExpr(
+                    ConditionExprType.POSTCONDITION, (lambda v: False), old.filename, old.line, 'False (reachability twin)')])
         msgs = run_checkables(checkables)
     except Exception as e:  # harness problem
         import traceback
